@@ -14,9 +14,10 @@ EXHAUSTIVE = {"quick": False, "thorough": False}
 SHARD = 4
 JOBS = 12
 COQ_IMPORTS = "From DS Require Import Model.ADD Spec.Count Model.Oracle."
-TRUSTED = ["compile() in the factor/leaf case is translation-validated per instance (valid_compiled evaluated in Coq on the "
-           "diagram and locations dumped from the implementation; C09_oracle_exact_validated turns a true verdict into "
-           "exactness of the oracle model), not proved for all inputs; scipy connected_components only through that"]
+TRUSTED = ["compile(): the construction is modelled and proved correct for every admissible component structure "
+           "(C09_compile_exact); per instance, Coq evaluates hints_ok on the structure recomputed with the same numpy / "
+           "scipy calls, compares the modelled diagram and row locations node by node with the implementation's, and "
+           "evaluates valid_compiled on the dump; scipy connected_components / np.argsort only through that"]
 ASSUMPTIONS = ["positive conjunctive provenance (a row is present iff all its units are), binary candidates"]
 WORKER_TIMEOUT = 3000
 
@@ -203,9 +204,13 @@ MANIFEST = {
             "whenever the boolean valid_compiled (Model/Oracle.v: type, edge-value lengths, rectangular levels, reachable "
             "nodes live and in range, zero edge values, unit order a permutation, one level per unit, row locations hit "
             "exactly the assignments under which the row is present) is true, the oracle model is exact; C09_spec_total "
-            "(counts add up to 2^(units-1)). PARTIAL in one link: compile()'s leaf/factor construction (connected "
-            "components, leaf selection, stack/concatenate) is not modelled; its output is dumped on every instance and "
-            "valid_compiled is evaluated on it inside Coq -- translation validation backed by the theorem. Tied to the code at unit level: every target x boundary pair of every instance is queried; "
+            "(counts add up to 2^(units-1)); C09_compile_exact -- compile()'s leaf/factor case is MODELLED (compile_model: per "
+            "component a header tree over the factor units with 2^f copies of the chain over the leaf units, components "
+            "concatenated; row locations) and for EVERY admissible component structure (hints_ok: components partition "
+            "the units, each has a leaf, each row lies in one component with at most one leaf) the oracle over the "
+            "modelled diagram is exact. What is left to correspondence: that the graph step (scipy connected components, "
+            "greedy independent set) delivers hints_ok and that the implementation builds the modelled diagram -- both "
+            "evaluated inside Coq on every instance (hints_ok, node-by-node equality). Tied to the code at unit level: every target x boundary pair of every instance is queried; "
             "result dictionaries vs the oracle model on the dumped compiled diagram and vs the counting specification.",
     "note": "Trusted: Coq kernel + vm_compute; harness; compile() in the leaf/factor case validated per instance, not "
             "proved. F12 (one-unit instances) is an open known finding.",
